@@ -91,6 +91,81 @@ CHECKS = {
         design_ref='DESIGN.md 5 / C18; notes/C18.md',
         technique='Coq proof (list induction, lia/div-mod, vm_compute over regenerated tables) + extracted-model correspondence + model-free oracle',
         note=NOTE_COMMON + ' Hints other than None/[+-]hhmm are outside the theorem (the tool passes only None or -0000); regex/strptime fidelity by correspondence only.'),
+    'C08': dict(
+        category='proof',
+        text='Coq theorems about the byte-level model of lib/moparser.py against a relation written from gmo.h: for every well-formed catalog and EVERY layout '
+             '(either byte order, tables and strings anywhere, overlapping or padded, hash/sysdep areas unconstrained, minor revision 0/1) parsing returns exactly the '
+             'catalog (msgctxt, msgid, msgid_plural, msgstr or indexed forms) in file order, the charset named by the header entry, and the possibly-hidden flag. '
+             'Decoding with the named codec is an oracle applied by the harness. Tied by a layout-parameterised MO serialiser and msgfmt-built files.',
+        design_ref='DESIGN.md 5 / C08; notes/C08.md',
+        technique='Coq proof (induction on the entry index over little/big-endian word lemmas) + extracted-model correspondence + serialise/parse oracle',
+        note=NOTE_COMMON + ' Text-level equality after decoding is checked by the harness only. D18 (msgctxt/msgid exchanged) fixed by commit e2286ba.'),
+    'C09': dict(
+        category='proof',
+        text='Coq theorems for ALL byte strings: the loader model never takes a foreign-exception branch (totality, also with the codec and through Checker.check\'s '
+             'except structure); an accepted file encodes the returned catalog (every returned string is present byte-for-byte at the offset/length read from the '
+             'declared tables, inside the file, followed by NUL); every table word and string read lies inside the file; each malformation named by the property '
+             '(bad magic, major > 1, truncated header, table or string past EOF, missing terminator, bad NUL structure, decreasing keys) is rejected with the MO syntax '
+             'error; rejected files produce invalid-mo-file only. Tied by fault enumeration (every truncation point, every header/table word x boundary values, '
+             'terminator flips, random bytes) against the model and an independent reference reader.',
+        design_ref='DESIGN.md 5 / C09; notes/C09.md',
+        technique='Coq proof (totality + soundness w.r.t. the gmo.h relation) + fault-enumeration correspondence + independent reference reader',
+        note=NOTE_COMMON + ' Known finding D11 (charset=idna: UnicodeError escapes).'),
+    'C11': dict(
+        category='proof',
+        text='Coq theorems about the model of strformat.c.FormatString against a specification written from C99 7.19.6.1 / POSIX numbered arguments / glibc extensions / '
+             '<inttypes.h> macros: accepted iff printf-valid (outside the known %#m deviation, with the refutation witness), unique decomposition into directives, '
+             'the reported argument list is the va_arg signature (number, order, C types, * widths/precisions as int), only own errors (with the generated digit limit), '
+             'warnings are inert, the error prefix is never empty; type/flag tables re-proved by vm_compute against the regenerated CInfo tables. Tied by component-exhaustive '
+             'directives, boundary values and glibc parse_printf_format.',
+        design_ref='DESIGN.md 5 / C11; notes/C11.md',
+        technique='Coq proof (scanner soundness/completeness, finite case analysis by vm_compute over regenerated tables) + correspondence + table-driven oracle + glibc parse_printf_format',
+        note=NOTE_COMMON + ' The re engine is modelled by a scanner. Known finding D15 (%#m rejected; pinned by a test).'),
+    'C15': dict(
+        category='proof',
+        text='Coq theorems about the model of parse_header / check_headers / check_mime / check_project / check_translator / check_comments for ALL headers and all library '
+             'oracles: no-<field> iff count 0 (with the POT/MO exemptions), duplicate iff count > 1, invalid-mime-version / content-transfer-encoding / content-type iff the value '
+             'deviates from the stated form, unknown-header-field iff neither registered nor X-prefixed, stray-header-line iff no field name and no conflict marker, header-entry '
+             'position/flag/duplicate rules, reserved and dot-less domains, the address decision ladder, a conventional header is silent, and no crash. parseaddr, urlparse, '
+             'get_close_matches and the charset predicates are oracle arguments.',
+        design_ref='DESIGN.md 5 / C15; notes/C15.md',
+        technique='Coq proof (characterisations over the field multiset) + in-process recorded-tag correspondence on generated headers + rule oracle',
+        note=NOTE_COMMON + ' Whole-result iffs for a few address/boilerplate/flag tags are covered by correspondence only (see notes/C15.md). D13 fixed by commit 1f24f5a.'),
+    'C16': dict(
+        category='proof',
+        text='Coq theorems about the model of check_messages / _check_message_flags over ALL catalogs: duplicate-message-definition iff a (msgid, msgctxt) pair occurs twice among '
+             'non-obsolete entries, reported once at the second occurrence; empty-file iff no non-header message and not possibly-hidden; translation-in-template, newline consistency, '
+             'partially-translated, stray-previous-msgid, conflict-marker iffs; each flag rule (unknown, duplicate, conflicting, redundant, invalid-range); fuzzy/obsolete exemptions; a clean '
+             'catalog is silent; no crash. expat, \\w and character names are oracles.',
+        design_ref='DESIGN.md 5 / C16; notes/C16.md',
+        technique='Coq proof (per-tag characterisations) + in-process recorded-tag correspondence on generated catalogs + rule oracle',
+        note=NOTE_COMMON + ' unusual-character completeness (first-seen set) and malformed-xml are soundness only. Known finding D21.'),
+    'C19': dict(
+        category='proof',
+        text='Coq theorems: the scanner model of the locale regexp accepts exactly ll[_CC][.encoding][@modifier] and printing the parse gives the input back (up to the case of the '
+             'encoding); over the ISO tables regenerated from data/iso-codes: code normalisation maps a 3-letter code with a 2-letter equivalent to it, rejects unknown codes, changes '
+             'nothing else, is idempotent; language-disparity, invalid-language (with the offered correction) and unable-to-determine-language characterisations of the check_language '
+             'decision model (-l, LC_MESSAGES directory, base name, Language, X-Poedit-Language).',
+        design_ref='DESIGN.md 5 / C19; notes/C19.md',
+        technique='Coq proof (induction; vm_compute + forallb_forall over regenerated ISO tables) + small-scope exhaustive correspondence + in-process check_language product + rule oracle',
+        note=NOTE_COMMON + ' _munch_language_name folding is an oracle; normpath/basename modelled and tied. D8, D17, D16 fixed (f3d0bed, 3540785, b507bc1).'),
+    'C20': dict(
+        category='proof',
+        text='Coq theorems: for each charmap of data/charmaps (regenerated every run) decode/encode round trip for byte strings of every length, totality with valid error positions, '
+             'ASCII compatibility; proposals are portable and resolve to the same codec; classification laws over the finite generated name table (refuted for KOI8-T = D10, proved for '
+             'all other names); the iconv grow-and-retry loops terminate with at most two doublings and report valid positions under the iconv(3) contract; unrepresentable-characters iff '
+             'some non-optional listed character is not encodable. Runtime (EUC-TW/KOI8-T via libc/CPython vs /usr/bin/iconv) by correspondence.',
+        design_ref='DESIGN.md 5 / C20; notes/C20.md',
+        technique='Coq proof (list induction, vm_compute over regenerated tables, fuel induction for the loops) + correspondence against real codecs and /usr/bin/iconv',
+        note=NOTE_COMMON + ' libc iconv, codecs.lookup, str.lower are oracles. Known findings D10, D19, D11.'),
+    'C17': dict(
+        category='other',
+        text='Partial. Proved: the path printed for a member of an unpacked package (fake_path specification); the loaders\' independence of spelling/layout is the content of the C10/C08 '
+             'theorems. Explored end to end through the real checker: one catalog spelled by two renderers, re-wrapped, octal-escaped, transcoded to ISO-8859-2 and by msgcat; MO files by '
+             'msgfmt in both byte orders / without hash table / other alignment; PO vs its MO; .deb packages built with dpkg-deb vs per-member runs, TMPDIR empty afterwards.',
+        design_ref='DESIGN.md 5 / C17',
+        technique='Coq proof (fake_path; corollaries of C08/C10) + metamorphic exploration with independent tools (msgcat, msgfmt, dpkg-deb)',
+        note=NOTE_COMMON + ' Unpacking, os.walk order and temporary-directory removal are runtime behaviour, explored only.'),
 }
 
 NA_REASON = 'check not built yet (work in progress; see DESIGN.md section 8 for build order)'
